@@ -33,6 +33,9 @@ func VerifInspectorIsolation() {
 	n := gosym.Param("N")
 	bi, err := NewBodyInspector(zzLog{})
 	gosym.Assert(err == nil, "inspector can be built")
+	if m := gosym.Param("INSPECT_MAX"); m > 0 {
+		bi.maxBodySize = int64(m) // the inspection window (1 MiB in production) scaled down: the logic is size-independent
+	}
 	mk := func(tag string) (*http.Request, []byte) {
 		b := gosym.Bytes(tag, n)
 		cl := int64(n)
